@@ -28,7 +28,7 @@ pub const C06: Check = Check {
     assumptions: &["the virtual clock only moves CLOCK_REALTIME forward and only between runs; every other instant keeps at least 30 minutes distance from each run's clock"],
     shards: |_| 16,
     watchdog: |t| Duration::from_secs(t.pick(600, 3600)),
-    budget: |t| Duration::from_secs(t.pick(40, 600)),
+    budget: |t| Duration::from_secs(t.pick(40, 300)),
     run: run_c06,
     crash_is_violation: false,
     finish: None,
@@ -139,7 +139,7 @@ pub const C40: Check = Check {
     assumptions: &["rsync transport; RRDP archives are covered by the RRDP checks' cleanup leg"],
     shards: |_| 16,
     watchdog: |t| Duration::from_secs(t.pick(600, 3600)),
-    budget: |t| Duration::from_secs(t.pick(40, 600)),
+    budget: |t| Duration::from_secs(t.pick(40, 300)),
     run: run_c40,
     crash_is_violation: false,
     finish: None,
